@@ -92,7 +92,9 @@ const INTERNAL_NAMES: [&str; 15] =
     ["iterator", "default", "func", "mapper", "res", "con", "value", "array", "i", "len", "iter", "acc", "curr", "function", "val"];
 
 /// identifiers that merely begin with a word of the language (a type name or a keyword)
-pub const KEYWORD_PREFIXED_NAMES: [&str; 52] = [
+pub const KEYWORD_PREFIXED_NAMES: [&str; 57] = [
+    // (names a console or a helper might be tempted to bind itself)
+    "ans", "last", "it", "result", "prev",
     "mutint", "mutany", "mutstring_",
     // (and the underscore, alone and leading: an identifier like any other)
     "_", "__", "_1",
